@@ -1,7 +1,344 @@
 package checks
 
-import "verif/mc/oracle"
+import (
+	"bytes"
+	"sort"
+	"strings"
 
-func c26Classify(t c26Case, ir oracle.InterpResult, br c26Res, rerun func(string) oracle.InterpResult) string {
+	"mvdan.cc/sh/v3/syntax"
+
+	"verif/mc/oracle"
+)
+
+// Classification of interp-vs-bash disagreements.
+//
+// A "transparent" family is a source-level repair (a rewrite of the syntax
+// tree that makes the interpreter behave the way bash does for one specific
+// construct) or an output normaliser. A failure belongs to the smallest set of
+// transparent families whose repairs, applied together, make the interpreter
+// produce exactly bash's stdout and status: the divergence is then fully
+// explained by those families and nothing else. The class is their names
+// joined by "+". An "opaque" family has only a narrow syntactic trigger; it is
+// used when no set of repairs explains the failure and the trigger is present
+// (the class then also lists the repairs that were needed, if any subset got
+// closer is not attempted: opaque classes are kept few and narrow).
+// Everything else stays unclassified.
+
+type c26Family struct {
+	name string
+	// repair rewrites f in place and reports whether it changed anything.
+	repair func(f *syntax.File) bool
+	// norm, when set, is applied to both outputs before they are compared.
+	norm func(string) string
+}
+
+func c26ParseCmd(src string) syntax.Command {
+	f, err := syntax.NewParser(syntax.Variant(syntax.LangBash)).Parse(strings.NewReader(src), "")
+	if err != nil || len(f.Stmts) != 1 {
+		panic("c26ParseCmd: " + src)
+	}
+	return f.Stmts[0].Cmd
+}
+
+func c26Print(n syntax.Node) string {
+	var b bytes.Buffer
+	syntax.NewPrinter().Print(&b, n)
+	return b.String()
+}
+
+// c26WalkStmts calls fn for every statement with the stack of enclosing nodes.
+func c26WalkStmts(f *syntax.File, fn func(st *syntax.Stmt, stack []syntax.Node)) {
+	var stack []syntax.Node
+	syntax.Walk(f, func(n syntax.Node) bool {
+		if n == nil {
+			stack = stack[:len(stack)-1]
+			return true
+		}
+		if st, ok := n.(*syntax.Stmt); ok {
+			fn(st, stack)
+		}
+		stack = append(stack, n)
+		return true
+	})
+}
+
+func c26CallName(st *syntax.Stmt) string {
+	if ce, ok := st.Cmd.(*syntax.CallExpr); ok && len(ce.Args) > 0 {
+		return ce.Args[0].Lit()
+	}
+	return ""
+}
+
+func c26Inside[T syntax.Node](stack []syntax.Node) bool {
+	for _, n := range stack {
+		if _, ok := n.(T); ok {
+			return true
+		}
+	}
+	return false
+}
+
+// test invocations that are usage errors (bash: status 2) whatever the state
+var c26TestErrors = map[string]bool{
+	"[ x -eq 1 ]": true, "[ 1 -eq ]": true, "[ a = a": true,
+}
+
+// ... and those that are usage errors when x is unset / 'a b'
+var c26TestErrorsState = map[string]bool{
+	"[ $x = 'a b' ]": true, "[ $x = a ]": true,
+}
+
+var c26Families = []c26Family{
+	{
+		// bash runs every pipeline stage in a subshell; the interpreter runs the
+		// last one in the calling shell (like `shopt -s lastpipe`)
+		name: "last-pipeline-stage-runs-in-parent-shell",
+		repair: func(f *syntax.File) bool {
+			changed := false
+			syntax.Walk(f, func(n syntax.Node) bool {
+				b, ok := n.(*syntax.BinaryCmd)
+				if !ok || (b.Op != syntax.Pipe && b.Op != syntax.PipeAll) {
+					return true
+				}
+				if _, ok := b.Y.Cmd.(*syntax.Subshell); ok && !b.Y.Negated && len(b.Y.Redirs) == 0 {
+					return true
+				}
+				b.Y = &syntax.Stmt{Cmd: &syntax.Subshell{Stmts: []*syntax.Stmt{b.Y}}}
+				changed = true
+				return true
+			})
+			return changed
+		},
+	},
+	{
+		// the ERR trap runs once per enclosing statement of the failed command
+		// (function call, brace group, if, case, loop body, last pipeline stage)
+		// instead of once
+		name: "err-trap-runs-again-for-each-enclosing-statement",
+		repair: func(f *syntax.File) bool {
+			has := false
+			c26WalkStmts(f, func(st *syntax.Stmt, _ []syntax.Node) {
+				if ce, ok := st.Cmd.(*syntax.CallExpr); ok && c26CallName(st) == "trap" && ce.Args[len(ce.Args)-1].Lit() == "ERR" {
+					has = true
+				}
+			})
+			return has
+		},
+		norm: func(s string) string {
+			lines := strings.SplitAfter(s, "\n")
+			var out []string
+			for i, l := range lines {
+				if i > 0 && l == lines[i-1] && strings.Contains(l, "ERR") {
+					continue
+				}
+				out = append(out, l)
+			}
+			return strings.Join(out, "")
+		},
+	},
+	{
+		// test/[ usage errors (missing operand, non-integer, missing ]) give
+		// status 1 instead of 2
+		name:   "test-usage-error-status-1-not-2",
+		repair: func(f *syntax.File) bool { return c26ReplaceTests(f, c26TestErrors) },
+	},
+	{
+		name:   "test-usage-error-status-1-not-2",
+		repair: func(f *syntax.File) bool { return c26ReplaceTests(f, c26TestErrorsState) },
+	},
+	{
+		// `return` outside a function: bash status 2, interp 1
+		name: "return-outside-function-status-1-not-2",
+		repair: func(f *syntax.File) bool {
+			changed := false
+			c26WalkStmts(f, func(st *syntax.Stmt, stack []syntax.Node) {
+				if c26CallName(st) == "return" && !c26Inside[*syntax.FuncDecl](stack) {
+					st.Cmd = c26ParseCmd("(exit 2)")
+					changed = true
+				}
+			})
+			return changed
+		},
+	},
+	{
+		// ${#m[@]} of an associative array is 1 instead of the number of keys
+		name: "assoc-array-count-is-1",
+		repair: func(f *syntax.File) bool {
+			assoc := map[string]bool{}
+			syntax.Walk(f, func(n syntax.Node) bool {
+				if d, ok := n.(*syntax.DeclClause); ok {
+					isA := false
+					for _, a := range d.Args {
+						if a.Name == nil && a.Value != nil && strings.HasPrefix(a.Value.Lit(), "-") && strings.Contains(a.Value.Lit(), "A") {
+							isA = true
+						}
+					}
+					for _, a := range d.Args {
+						if isA && a.Name != nil {
+							assoc[a.Name.Value] = true
+						}
+					}
+				}
+				return true
+			})
+			changed := false
+			syntax.Walk(f, func(n syntax.Node) bool {
+				w, ok := n.(*syntax.Word)
+				if !ok {
+					return true
+				}
+				for i, p := range w.Parts {
+					pe, ok := p.(*syntax.ParamExp)
+					if !ok || !pe.Length || pe.Index == nil || !assoc[pe.Param.Value] {
+						continue
+					}
+					if ix, ok := pe.Index.(*syntax.Word); !ok || (ix.Lit() != "@" && ix.Lit() != "*") {
+						continue
+					}
+					ce := c26ParseCmd("echo $(cnt=0; for key in \"${!" + pe.Param.Value + "[@]}\"; do cnt=$((cnt+1)); done; echo $cnt)").(*syntax.CallExpr)
+					w.Parts[i] = ce.Args[1].Parts[0]
+					changed = true
+				}
+				return true
+			})
+			return changed
+		},
+	},
+	{
+		// bash (not in posix mode) turns -e off inside command substitutions;
+		// the interpreter's command substitution inherits it
+		name: "errexit-inherited-by-command-substitution",
+		repair: func(f *syntax.File) bool {
+			changed := false
+			syntax.Walk(f, func(n syntax.Node) bool {
+				if cs, ok := n.(*syntax.CmdSubst); ok && len(cs.Stmts) > 0 {
+					off := c26ParseCmd("{ set +e; }").(*syntax.Block).Stmts[0]
+					cs.Stmts = append([]*syntax.Stmt{off}, cs.Stmts...)
+					changed = true
+				}
+				return true
+			})
+			return changed
+		},
+	},
+	{
+		// a while/until loop that ends because its condition says so has status
+		// 0 instead of the status of the last body command run
+		name: "while-until-status-not-last-body-status",
+		repair: func(f *syntax.File) bool {
+			changed := false
+			seq := 0
+			var loops []*syntax.Stmt
+			c26WalkStmts(f, func(st *syntax.Stmt, _ []syntax.Node) {
+				if _, ok := st.Cmd.(*syntax.WhileClause); ok && !st.Negated {
+					loops = append(loops, st)
+				}
+			})
+			for _, st := range loops {
+				w := st.Cmd.(*syntax.WhileClause)
+				seq++
+				v := "lst" + string(rune('a'+seq%26))
+				pre := c26ParseCmd("{ " + v + "=0; }").(*syntax.Block).Stmts[0]
+				save := c26ParseCmd("{ " + v + "=$?; }").(*syntax.Block).Stmts[0]
+				done := c26ParseCmd("{ c26st() { return $1; }; c26st $" + v + "; }").(*syntax.Block).Stmts
+				do := append([]*syntax.Stmt{pre}, w.Do...)
+				do = append(do, save)
+				inner := &syntax.Stmt{Cmd: &syntax.WhileClause{Until: w.Until, Cond: w.Cond, Do: do}}
+				st.Cmd = &syntax.Block{Stmts: append([]*syntax.Stmt{pre, inner}, done...)}
+				changed = true
+			}
+			return changed
+		},
+	},
+}
+
+func c26ReplaceTests(f *syntax.File, set map[string]bool) bool {
+	changed := false
+	c26WalkStmts(f, func(st *syntax.Stmt, _ []syntax.Node) {
+		if n := c26CallName(st); n != "[" && n != "test" {
+			return
+		}
+		if set[c26Print(st.Cmd)] {
+			st.Cmd = c26ParseCmd("(exit 2)")
+			changed = true
+		}
+	})
+	return changed
+}
+
+func c26Classify(t c26Case, ir oracle.InterpResult, br c26Res, run func(f *syntax.File) oracle.InterpResult) string {
+	parse := func() *syntax.File {
+		f, err := syntax.NewParser(syntax.Variant(syntax.LangBash)).Parse(strings.NewReader(t.Src), "")
+		if err != nil {
+			return nil
+		}
+		return f
+	}
+	f0 := parse()
+	if f0 == nil {
+		return ""
+	}
+	// applicable transparent families
+	var app []int
+	for i, fam := range c26Families {
+		if fam.repair(parse()) {
+			app = append(app, i)
+		}
+	}
+	if len(app) > 6 {
+		app = app[:6]
+	}
+	best := -1
+	bestN := 99
+	for mask := 1; mask < 1<<len(app); mask++ {
+		n := 0
+		for b := range app {
+			if mask&(1<<b) != 0 {
+				n++
+			}
+		}
+		if n >= bestN {
+			continue
+		}
+		f := parse()
+		norm := func(s string) string { return s }
+		for b, i := range app {
+			if mask&(1<<b) == 0 {
+				continue
+			}
+			fam := c26Families[i]
+			fam.repair(f)
+			if fam.norm != nil {
+				prev := norm
+				norm = func(s string) string { return fam.norm(prev(s)) }
+			}
+		}
+		r := run(f)
+		if r.Panicked || r.Status != br.Status || norm(r.Stdout) != norm(br.Out) {
+			continue
+		}
+		best, bestN = mask, n
+	}
+	if best > 0 {
+		names := map[string]bool{}
+		for b, i := range app {
+			if best&(1<<b) != 0 {
+				names[c26Families[i].name] = true
+			}
+		}
+		var ns []string
+		for n := range names {
+			ns = append(ns, n)
+		}
+		sort.Strings(ns)
+		return strings.Join(ns, "+")
+	}
+	// no set of repairs explains it: the first opaque family (narrowest
+	// first) whose trigger construct occurs in the program
+	for _, o := range c26Opaque {
+		if o.trigger(f0, t.Src) {
+			return o.name
+		}
+	}
 	return ""
 }
